@@ -9,7 +9,8 @@ CONSTANTS
   Depth = 0
   OlderSet = {TRUE, FALSE}
   SampleMod = 1
-  Log <- LogLast
+  MaxChanges = 2
+  Log <- LogNone
 VIEW cvars
 INVARIANTS TypeOK Inv_C16_OnePlace Inv_C16_Lookup
 CHECK_DEADLOCK FALSE
